@@ -1,4 +1,7 @@
-from lib.core import Kani, Fn
+import os
+from lib.core import Kani, Verus, Fn, VERUS_DIR
+from lib import vx
+from verus import c02_convergence_map as cm
 
 PROPERTY = 'C02'
 LEVEL = 'other'
@@ -7,10 +10,25 @@ V = 'crates/aranya-runtime/src/client/convergence_map.rs'
 RT = dict(crate='aranya-runtime', features='testing,libc')
 MB = 'client::braiding::verif_kani::'
 MV = 'client::convergence_map::verif_kani::'
-HARNESS_FILES = ['kani/aranya-runtime/braiding.rs', 'kani/aranya-runtime/convergence_map.rs']
+HARNESS_FILES = ['verus/c02_convergence_map.py', 'kani/aranya-runtime/braiding.rs', 'kani/aranya-runtime/convergence_map.rs']
 BR = [Fn(B, 'push', r'impl<F: Spill> BraidResult<F>'), Fn(B, 'flush_to_disk', r'impl<F: Spill> BraidResult<F>'),
       Fn(B, 'next', r"impl<'a, F: Spill> Iterator for BraidIter<'a, F>"), Fn(B, 'load_prev_block', r"impl<'a, F: Spill> BraidIter<'a, F>")]
+def build_cm():
+    text, located, dropped, raws = cm.build()
+    d = os.path.join(VERUS_DIR, 'c02_convergence_map')
+    os.makedirs(d, exist_ok=True)
+    vx.write_diff(raws, os.path.join(d, 'repo_vs_verified.diff'))
+    return text, located, dropped
+
+
+CM_UNIT = Verus('c02_convergence_map', build_cm, min_verified=25,
+                contract='ConvergenceMap (12 functions extracted: Block::{insert,find,clear,is_empty,is_full}, lru_block, insert_entry, spill_lru, load_block_from_disk, find_in_memory, consume_entry, should_continue), '
+                         'for maps of any size: should_continue terminates (the spilled-block scan visits each root entry once); when it falls through to Ok(true) no block in memory or on disk holds the location '
+                         '(every entry of a spilled block lies inside the range spill_lru recorded for it, and the range test is inclusive); when it finds the location it returns consume_entry\'s answer for that entry; '
+                         'consume_entry: count > 1 => Ok(false) and count - 1, else Ok(true) and the entry is retired, nothing else changes; spill_lru moves a block to disk without losing or inventing a location; '
+                         'all indexing is in bounds')
 UNITS = [
+    CM_UNIT,
     Kani(MB + 'c02_braid_iter_mem2_disk3', fns=BR, kind='bounded', bound='3 entries spilled through the real flush_to_disk + 2 in memory, contents symbolic',
          contract='iterating a BraidResult yields exactly the pushed locations, each once, in reverse push order (memory first, then the spilled block), then None', **RT),
     Kani(MB + 'c02_braid_iter_read_error_fuses', fns=BR, kind='bounded', bound='1 entry in memory, failing spill read',
@@ -25,13 +43,15 @@ UNITS = [
          tiers=('thorough',), cap_s=1800, contract='convergence Block codec round trip', **RT),
 ]
 TRUSTED = ['Spill contract: read_at returns what write_at stored (array-backed implementation in the harness)']
-ASSUMPTIONS = ['"every non-merge command exactly once, after its ancestors" over all DAG shapes is history-level and is NOT decided: braid(), ConvergenceMap::advance_to / should_continue '
-               'and consume_entry are not under contract (they drag in BinaryHeap and 3x256-entry blocks, beyond CBMC reach)']
+ASSUMPTIONS = ['"every non-merge command exactly once, after its ancestors" over all DAG shapes is history-level and is NOT decided: braid() and ConvergenceMap::advance_to (the BFS that counts arrivals) are not under contract',
+               'in the Verus unit, advance_to, read_block_from_disk (Spill::read_at + Block::load_from_bytes), Block::to_bytes and Spill::write_at are external with assumed contracts (the codecs are the Kani units here); '
+               'heapless::Vec is modelled by a std Vec with an abstract is_full; the &mut fields of ConvergenceMap are owned in the shim']
 EXPLANATION = ('Bounded stand-in: the two spill data structures that implement "exactly once" and "reverse push order" are checked on the real code — the braid result / iterator '
                '(including the real 256-entry spill boundary in the thorough tier) and the convergence-map spill codecs.')
 MANIFEST = {
-    'text': 'Bounded, data-structure level: the braid result replays exactly what was pushed in reverse order across the memory/spill boundary, and the convergence-map entry/block codecs round-trip. '
-            'Ancestor-first / exactly-once over arbitrary DAGs is not decided.',
-    'note': 'Bounded stand-in (category other). The braid loop itself is not under contract.',
-    'technique': 'Kani bounded contract harnesses + CBMC',
+    'text': 'Data-structure level: the convergence map that decides "drop every arrival but the last" is proved (Verus, unbounded) to terminate, to find an entry wherever it is (memory or spilled), to count arrivals down exactly, '
+            'and to spill without loss; the braid result replays exactly what was pushed in reverse order across the memory/spill boundary, and the entry/block codecs round-trip (Kani, bounded). '
+            'Ancestor-first / exactly-once over arbitrary DAGs (braid loop + BFS counting) is not decided.',
+    'note': 'Category other: mix of an unbounded Verus proof of the convergence map and bounded Kani stand-ins. The braid loop itself is not under contract.',
+    'technique': 'Verus on the extracted ConvergenceMap + Kani bounded contract harnesses (CBMC)',
 }
